@@ -835,6 +835,35 @@ func (env *Env) specCall(x *ast.CallExpr) Val {
 	case "iscat":
 		r, a, b := env.term(arg(0), x.Pos()), env.term(arg(1), x.Pos()), env.term(arg(2), x.Pos())
 		return Val{T: Term{app(ss.CatPred(r.Sort), r.S, a.S, b.S), SBool}}
+	case "store":
+		a := env.term(arg(0), x.Pos())
+		xs, err := parseSX(a.Sort)
+		if err != nil || len(xs) != 1 || len(xs[0].List) != 3 {
+			env.fail(x.Pos(), "store on non-array sort %s", a.Sort)
+		}
+		ks, vs := xs[0].List[1].String(), xs[0].List[2].String()
+		k := env.term(env.coerce(arg(1), ks), x.Pos())
+		v := env.term(env.coerce(arg(2), vs), x.Pos())
+		return Val{T: Term{app("store", a.S, k.S, v.S), a.Sort}}
+	case "uptrOf":
+		v := env.term(arg(0), x.Pos())
+		env.c.declOnce("(declare-fun uptr.ofaddr ((_ BitVec 64)) UPtr)")
+		return Val{T: Term{app("uptr.ofaddr", v.S), "UPtr"}}
+	case "uptrTo":
+		// uptrTo(x, T): the *T value an unsafe.Pointer was converted from
+		v := env.term(arg(0), x.Pos())
+		tv := arg(1)
+		if tv.T.Sort != "Type" {
+			env.fail(x.Pos(), "uptrTo needs a type as second argument")
+		}
+		ps := ss.SortOf(types.NewPointer(tv.GoT))
+		if v.Sort == SBV64 {
+			env.c.declOnce("(declare-fun uptr.ofaddr ((_ BitVec 64)) UPtr)")
+			v = Term{app("uptr.ofaddr", v.S), "UPtr"}
+		}
+		fn := "uptr.to." + mangle(ps)
+		env.c.declOnce(fmt.Sprintf("(declare-fun %s (UPtr) %s)", fn, ps))
+		return Val{T: Term{app(fn, v.S), ps}, GoT: types.NewPointer(tv.GoT)}
 	case "nonnil":
 		v := arg(0)
 		if v.Loc != nil {
